@@ -457,6 +457,9 @@ def _oracle_vertical(d):
         return msgs[:5]
     # decode the text back (own reader, and the real str_to_tree) when the names allow it
     distinct = len({stem, branch, final, gap}) == 4 or (len({branch, final}) == 2 and stem not in (branch, final) and gap not in (branch, final))
+    if isinstance(d["style"], str) and len(info) > 1 and not (L > 0 and distinct and _regex_safe(stem, branch, final, gap)):
+        msgs.append(f"built-in style {d['style']!r}: glyphs {stem!r},{branch!r},{final!r} do not let the text be decoded "
+                    "(connector glyphs must differ from each other and from the indentation)")
     if L > 0 and distinct and all(_safe_v(x[0], (stem, branch, final, gap)) for x in info):
         dec, _fl = _decode_vertical(lines, stem, branch, final)
         if dec is None:
